@@ -144,8 +144,9 @@ def labelsOK (p : Prog) (l : List Nat) : Bool :=
 
 /-- certifying labelling of the weakly connected components of the sharing graph: min-label
 propagation for `|p|` rounds; `none` unless the result passes `labelsOK`.  That the classes are
-not *coarser* than the components is tied by correspondence (masker-identity partition of the
-real model). -/
+also not *coarser* than the components is proved in `Lemmas/PIT/Labels.lean`
+(`classes_are_components`); the masker-identity partition of the real model is compared with
+these classes on every generated net. -/
 def computeLabels (p : Prog) : Option (List Nat) :=
   let l := (List.range p.length).foldl (fun l _ => relabel (keptEdges p) l) (List.range p.length)
   if labelsOK p l then some l else none
